@@ -25,15 +25,24 @@ def problem_spec(nx=(6, 7, 8, 10), nyz=(4, 5, 6, 8), max_src=3, max_rec=4,
                                 max_decades=max_decades, mur=False,
                                 epsr=False),
         'lgind': st.floats(-2.0, 0.3),
-        'src': st.lists(st.sampled_from(list(src_kinds)), min_size=1,
-                        max_size=max_src),
+        'src': st.one_of(
+            st.lists(st.sampled_from(list(src_kinds)), min_size=1,
+                     max_size=max_src),
+            st.lists(st.sampled_from(list(src_kinds)),
+                     min_size=min(2, max_src), max_size=max_src)),
         'rec': st.lists(st.sampled_from(REC_KINDS), min_size=1,
                         max_size=max_rec),
-        'freq': st.lists(gen.lgfloat(0.3, 3.0), min_size=1,
-                         max_size=max_freq, unique=True),
+        'freq': st.one_of(
+            st.lists(gen.lgfloat(0.3, 3.0), min_size=1, max_size=max_freq,
+                     unique=True),
+            st.lists(gen.lgfloat(0.3, 3.0), min_size=min(2, max_freq),
+                     max_size=max_freq, unique=True)),
         'noise_shape': st.sampled_from(NOISE_SHAPES),
         'noise_kind': st.sampled_from(NOISE_KINDS),
         'nan_frac': st.sampled_from([0.0, 0.0, 0.15, 0.3]),
+        # structure of the missing data: single entries, or (additionally) a
+        # whole source-frequency pair / a whole receiver without data
+        'nan_mode': st.sampled_from(['entries', 'pair', 'receiver', 'pair']),
         'seed': gen.SEED,
     })
 
@@ -247,21 +256,51 @@ def all_converged(sim, which='efield'):
 
 
 def data_converged(p, sim, rtol=1e-6):
-    """Precondition of the finite-difference oracles: the synthetic data do
-    not depend on the solver tolerance, i.e. they are not numerical noise.
-    Recomputes the data with a 100 times looser tolerance."""
-    import emg3d
-    opts = dict(SOLVER)
-    opts['tol'] = 100*SOLVER['tol']
-    sv = emg3d.Survey(p.sources, p.receivers, p.freqs)
-    s2 = make_sim(p, sv, sim.model.copy(), solver_opts=opts)
-    s2.compute()
+    """Precondition of the derivative oracles: emg3d's own synthetic data
+    agree with the direct-solve data, i.e. they are not solver noise
+    (responses many skin depths away, ill-conditioned systems)."""
     a = sim.data.synthetic.data
-    b = s2.data.synthetic.data
+    b = direct_data(p, sim)
     m = np.isfinite(a) & np.isfinite(b)
     if not m.any():
         return True
-    return bool(np.all(np.abs(a-b)[m] <= rtol*np.abs(a)[m]))
+    return bool(np.all(np.abs(a-b)[m] <= rtol*np.abs(b)[m]))
+
+
+def direct_data(p, sim, direction=None, eps=0.0):
+    """Synthetic data of the model with parameters m + eps*direction from
+    DIRECT sparse solves of the checker-assembled operator (vp/refop.py) with
+    emg3d's source vectors and receiver sampling.  Free of the iteration
+    noise of Krylov/multigrid solves (error ~ cond * tol), which makes
+    finite differences of emg3d's own forward data unusable on
+    ill-conditioned (low induction number) problems."""
+    import emg3d
+    import scipy.sparse.linalg as spla
+    from vp import refop
+    names, arrs = param_arrays(p)
+    conds = {}
+    for i, (n, a) in enumerate(zip(names, arrs)):
+        a = a if direction is None else a + eps*direction[i]
+        conds[n] = gen.map_backward(p.mapping, a)
+    sx = conds['property_x']
+    sy = conds.get('property_y', sx)
+    sz = conds.get('property_z', sx)
+    h = [p.grid.h[0], p.grid.h[1], p.grid.h[2]]
+    interior = refop.interior_mask(*p.grid.shape_cells)
+    ii = np.flatnonzero(interior)
+    out = np.full(p.shape, np.nan+1j*np.nan)
+    lus = {}
+    for i, (sn, src) in enumerate(sim.survey.sources.items()):
+        for k, (fn, f) in enumerate(sim.survey.frequencies.items()):
+            if fn not in lus:
+                A, *_ = refop.assemble(*h, sx, sy, sz, None, None,
+                                       2j*np.pi*f)
+                lus[fn] = spla.splu(A[ii][:, ii].tocsc())
+            sf = emg3d.get_source_field(p.grid, src, f)
+            e = emg3d.Field(p.grid, frequency=f)
+            e.field[ii] = lus[fn].solve(sf.field[ii])
+            out[i, :, k] = sim._get_responses(sn, fn, e)
+    return out
 
 
 def observed_from_true(p):
@@ -283,8 +322,14 @@ def observed_from_true(p):
         return None
     obs = sv.data.observed.data.copy()
     frac = p.spec['nan_frac']
+    mode = p.spec.get('nan_mode', 'entries')
     if frac > 0 and obs.size > 1:
         mask = rng.random(obs.shape) < frac
+        ns, nr, nf = obs.shape
+        if mode == 'pair' and ns*nf > 1:
+            mask[int(rng.integers(0, ns)), :, int(rng.integers(0, nf))] = True
+        elif mode == 'receiver' and nr > 1:
+            mask[:, int(rng.integers(0, nr)), :] = True
         if mask.all():
             mask.flat[0] = False
         obs[mask] = np.nan
